@@ -10,6 +10,12 @@ CHECKS = {
  "C20": ("DESIGN.md section 5 C20",
    "Theorems for every text and offset: offset->line mapping equals the number of LF before the offset; the line-start table holds exactly the line beginnings; the printed l:c-c' / l:c-l':c' of any span, read as 1-based half-open, designates exactly that span; Merge and the UpdateLocations post-order hull cover all parts (tight). The arithmetic is regenerated from nsl/ast/__init__.py and nsl/parser.py on every run (T9, agreement lemmas); SourceMapping/Location/parser/UpdateLocations/redeclaration diagnostics are run on random texts (LF, CR, FF, VT, NEL, U+2028...) and programs in five layouts and compared inside Coq with model and specification.",
    TB + "bisect.bisect_right is modelled as 'number of leading elements <= x' (equal on ascending lists); the text/AST pairing of program cases is done by the harness."),
+ "C09": ("DESIGN.md section 5 C09",
+   "Theorem over the full internal type universe with NO size bound (every operator, component type, positive vector size and matrix shape): the typing function of the model accepts exactly the combinations the language defines, with the defined result type and operand conversions (matrix-matrix comparison unconstrained). op.IsComparison and _GetCommonScalarType inside the theorem are regenerated from nsl/op.py / nsl/types.py on every run. Tie: EXHAUSTIVE correspondence - all 13 x 63 x 63 = 51597 triples through nsl.types.ResolveBinaryExpressionType compared inside Coq with model and specification; all 2548 spellable triples end to end (accept/reject, static result type in the IR, overload chosen by g(a OP b)).",
+   TB + "ResolveBinaryExpressionType is hand-modelled (Model/TypesBin.v) and tied by the exhaustive comparison, not regenerated; the end-to-end expectations are computed by the specification inside Coq; one open known finding (KF-01, scalar * matrix unlowered)."),
+ "C10": ("DESIGN.md section 5 C10",
+   "Theorems for overload sets of any size and arity: the model of Scope.FindFunction (stable sort by score, filter, top-two comparison) equals the specified resolution (unique cheapest viable candidate / Ambiguous / NoMatch / Unknown); Found means strictly cheaper than every other viable candidate; the outcome is invariant under any permutation of the declarations. Tie: the shapes of types.Match and Function.Match are checked by translator T6 on every run; Scope.RegisterFunction/FindFunction are driven exhaustively over every ordered set of <=3 one-parameter overloads over 9 types x all argument types and two-parameter sets over 4 types, plus random mixed-arity sets, compared inside Coq; sampled programs with overloads returning distinct constants are run on the VM.",
+   TB + "IsCompatible/Match/FindFunction are hand-modelled and tied by exhaustive/random comparison; array-typed and __optional parameters are outside the modelled universe (and outside the property's quantifier); sorted() is modelled as a stable insertion sort."),
 }
 NA = {"C17": "the mechanism is CPython's pickle applied to an object graph; no executable Gallina model of repository logic exists whose theorem would say more than reflexivity (DESIGN.md section 5 C17 / section 10)"}
 def check(pid):
